@@ -254,6 +254,13 @@ def cases_c04(rng, thorough):
                                              rng.choice(variants))], G.ints(xs)))
     cases += shared_inner_cases(rng, 24 if thorough else 8,
                                 lambda r, inn: G.op_group_by('modc', r.choice([2, 3]), inn))
+    # a key mapper that is not a function of the item (a round-robin dispatcher): it is
+    # evaluated once per item; one key lifetime per case
+    for _ in range(40 if thorough else 12):
+        inner = rng.choice([[], [G.op_simple('to_list')], [_scan_add()]])
+        xs = G.ints([rng.randint(0, 4) for _ in range(rng.randint(0, 9))])
+        cases.append(mux_case([G.op_group_by('seqc', rng.choice([2, 3]), inner)], G.key_stream(rng.choice([0, 4]), xs),
+                              stateful_fn=True))
     cases += sparse_cases(rng, [[G.op_group_by('modc', 3, [])], [G.op_group_by('id', 0, [G.op_simple('to_list')])]],
                           3 if thorough else 1)
     cases += multi_source_cases(rng, 12 if thorough else 4, mk_pipe=lambda r: [G.op_group_by(
@@ -392,6 +399,15 @@ def cases_c07(rng, thorough):
         rng, 24 if thorough else 8,
         lambda r, inn: G.op_time_split(r.choice([-1, 2, 3]), r.choice([-1, 1, 2]), True, r.random() < 0.5, inn),
         items=lambda r: ts_items([(r.choice([0, 1, 1, 2, 3]), r.random() < 0.3) for _ in range(r.randint(0, 8))]))
+    # a closing mapper that is not a function of the item (a budget that accepts every second
+    # consultation): it is consulted only for items that do not expire the window
+    for _ in range(60 if thorough else 16):
+        op = G.op_time_split(rng.choice([-1, 2, 3]), rng.choice([-1, 1, 2]), True, rng.random() < 0.5,
+                             rng.choice([[], [G.op_simple('to_list')]]))
+        op['closing'] = fn('every2')
+        gf = [(rng.choice([0, 0, 1, 1, 2, 3]), False) for _ in range(rng.randint(0, 9))]
+        cases.append(mux_case([op], G.key_stream(rng.choice([0, 2]), ts_items(gf)),
+                              timescale=rng.choice([None, 'datetime']), stateful_fn=True))
     cases += multi_source_cases(
         rng, 12 if thorough else 4,
         mk_pipe=lambda r: [G.op_time_split(r.choice([-1, 2, 3]), r.choice([1, 2]), True, r.random() < 0.5,
@@ -590,6 +606,16 @@ def cases_c09(rng, thorough):
         # re-entrant delivery (the state is written before the running value is emitted)
         if op['op'] != 'dist' and not (op['op'] == 'mean' and op['reduce']):
             cases += feedback_cases(rng, [[op]], 4 if thorough else 1)
+    # a consumer that modifies the list it receives; lifetimes that get no item (everything is
+    # filtered out before the fold) emit the seed: it must not be the shared seed object
+    for _ in range(60 if thorough else 16):
+        fold = rng.choice([G.op_scan('appendNew', ['l', []], reduce=True), G.op_scan('appendMut', ['l', []], reduce=True),
+                           G.op_scan('appendMut', ['l', []], reduce=True, seedfactory=True), G.op_simple('to_list')])
+        inner = [G.op_filter('gec', rng.choice([1, 2, 3])), fold, G.op_map('appendc', 9)]
+        parent = rng.choice([lambda inn: G.op_split('divc', 2, inn), lambda inn: G.op_group_by('modc', 3, inn),
+                             lambda inn: G.op_roll(2, 2, inn)])
+        lts = rand_lifetimes(rng, 2, 9, vals=range(5))
+        cases.append(mux_case([parent(inner)], G.schedule(rng, lts)))
     cases += sparse_cases(rng, [[_scan_add()], [{'op': 'count', 'reduce': True}], [G.op_simple('to_list')],
                                 [G.op_simple('duc', f=fn('id'))]], 3 if thorough else 1)
     cases += multi_source_cases(rng, 16 if thorough else 5, mk_pipe=lambda r: [r.choice(
@@ -1527,7 +1553,8 @@ def main(prop):
                 c['share_ops'] = True
             # and some are preceded by a warm-up subscription of the same piped observable that
             # is disposed with keys still open (what it received is a prefix of the events)
-            if c.get('mode') == 'mux' and 'multi' not in c and len(c['src']) > 2 and rng.random() < 0.15:
+            if c.get('mode') == 'mux' and 'multi' not in c and len(c['src']) > 2 and rng.random() < 0.15 \
+                    and not c.get('stateful_fn'):     # (a user function with a memory would remember the warm-up)
                 evs = [e for e in c['src'] if e.get('t') in ('c', 'n', 'd', 'e')]
                 c['warmup'] = evs[:rng.randint(1, len(evs))]
         stats = {}
